@@ -490,6 +490,34 @@ func g6LoopEffects(r *Repo, rep *Report, accepted []*mapRange) {
 			}
 			if !found {
 				rep.fail(Finding{Rule: "G6", Key: "G6|effects|exempt-stale|" + fn, Kind: "undecided", Msg: "the exempted call " + callee + " in " + fn + " no longer exists: the exemption and its argument need to be re-confirmed"})
+				continue
+			}
+			// the argument for the exemption ("already done when the call was added") needs the exempted call to happen on
+			// every execution of the function: the top-level statement containing it precedes every return
+			var holder ast.Stmt
+			for _, st := range fi.Decl.Body.List {
+				if nodeHas(st, func(k ast.Node) bool {
+					c, ok := k.(*ast.CallExpr)
+					return ok && exprStr(c.Fun) == callee
+				}) {
+					holder = st
+					break
+				}
+			}
+			early := false
+			for _, st := range fi.Decl.Body.List {
+				if st == holder {
+					break
+				}
+				if nodeHas(st, func(k ast.Node) bool { _, ok := k.(*ast.ReturnStmt); return ok }) {
+					early = true
+				}
+			}
+			if holder == nil || early {
+				rep.fail(Finding{Rule: "G6", Key: "G6|effects|exempt-premise|" + fn, Where: []string{r.pos(fi.Decl.Pos())},
+					Msg: fn + " can return before it reaches " + callee + ": the registration that is supposed to have happened when the call was added (in source order) is then left to the next caller — (*pkg).Done, which ranges over a Go map — so which plugin claims a short import alias first depends on map order"})
+			} else {
+				rep.pass("G6")
 			}
 		}
 	}
